@@ -49,7 +49,7 @@ package combinator
 //@   assert_at call:Union#1 [cp-operand;C01] same(lastarg[data.IntSet](1), parsley.GhostLastCp)
 //@   ghost_at call:Union#1 parsley.GhostCpAcc = lastres[data.IntSet](0)
 //@   ghost_at call:Parse#1 when lastres[parsley.Error](2) != nil && (lastres[parsley.Error](2).Pos() > pos || !parsley.IsNotFound(lastres[parsley.Error](2))) && lastres[parsley.Error](2).Pos() > parsley.GhostBest :: parsley.GhostBest = lastres[parsley.Error](2).Pos()
-//@   assert_at call:SetError#1 [L-success;C06] parsley.GhostBest >= 0 ==> lastarg[parsley.Error](1) != nil && lastarg[parsley.Error](1).Pos() >= parsley.GhostBest
+//@   assert_at call:SetError#1 [L-success;C06,C10] parsley.GhostBest >= 0 ==> lastarg[parsley.Error](1) != nil && lastarg[parsley.Error](1).Pos() >= parsley.GhostBest
 //@   ensures  [L-failure;C06] n == nil && parsley.GhostBestOut >= 0 ==> err != nil && err.Pos() >= parsley.GhostBestOut
 //@   ensures  [cp-all;C01,C04] same(cp, parsley.GhostCpAcc)
 //@   ensures  [E5-first;C01,C04] n != nil ==> same(n, parsley.GhostLastNode)
@@ -58,7 +58,7 @@ package combinator
 //@   invariant 0 <= k && k <= len(parsers)
 //@   invariant [first-wins;C01,C04] k >= 1 ==> parsley.GhostLastNode == nil
 //@   invariant [cp-all;C01,C04] k >= 1 ==> same(cp, parsley.GhostCpAcc)
-//@   invariant [L;C06] (err == nil ==> parsley.GhostBest == -1) && (err != nil ==> err.Pos() >= parsley.GhostBest)
+//@   invariant [L;C06,C10] (err == nil ==> parsley.GhostBest == -1) && (err != nil ==> err.Pos() >= parsley.GhostBest)
 //@   invariant parsley.WfCtx(ctx) && parsley.WfCache(ctx) && parsley.InInput(ctx.Reader(), pos) && ghostIn(ctx, lrc, pos)
 //@   invariant data.Inv(cp) && errOK(ctx, err, pos) && errOK(ctx, notFoundErr, pos)
 //@   invariant [PC1] k >= 1 && err == nil && notFoundErr == nil ==> parsley.GhostCurtailed
@@ -75,7 +75,7 @@ package combinator
 //@   ensures  [cp-all;C01,C04] same(cp, parsley.GhostCpAcc)
 //@   assert_at call:AppendNode#1 [E4-merged;C01,C04] same(lastarg[parsley.Node](1), parsley.GhostLastNode)
 //@   ghost_at call:Parse#1 when lastres[parsley.Error](2) != nil && (lastres[parsley.Error](2).Pos() > pos || !parsley.IsNotFound(lastres[parsley.Error](2))) && lastres[parsley.Error](2).Pos() > parsley.GhostBest :: parsley.GhostBest = lastres[parsley.Error](2).Pos()
-//@   assert_at call:SetError#1 [L-success;C06] parsley.GhostBest >= 0 ==> lastarg[parsley.Error](1) != nil && lastarg[parsley.Error](1).Pos() >= parsley.GhostBest
+//@   assert_at call:SetError#1 [L-success;C06,C10] parsley.GhostBest >= 0 ==> lastarg[parsley.Error](1) != nil && lastarg[parsley.Error](1).Pos() >= parsley.GhostBest
 //@   ensures  [L-failure;C06] n == nil && parsley.GhostBestOut >= 0 ==> err != nil && err.Pos() >= parsley.GhostBestOut
 //@ loop 1 (k rangeindex, cp data.IntSet, res parsley.Node, err parsley.Error, notFoundErr parsley.Error)
 //@   invariant 0 <= k && k <= len(parsers)
@@ -83,7 +83,7 @@ package combinator
 //@   invariant data.Inv(cp) && errOK(ctx, err, pos) && errOK(ctx, notFoundErr, pos) && resOK(ctx, res, pos)
 //@   invariant [PC1] k >= 1 && res == nil && err == nil && notFoundErr == nil ==> parsley.GhostCurtailed
 //@   invariant [cp-all;C01,C04] k >= 1 ==> same(cp, parsley.GhostCpAcc)
-//@   invariant [L;C06] (err == nil ==> parsley.GhostBest == -1) && (err != nil ==> err.Pos() >= parsley.GhostBest)
+//@   invariant [L;C06,C10] (err == nil ==> parsley.GhostBest == -1) && (err != nil ==> err.Pos() >= parsley.GhostBest)
 
 //@ -- the same result, possibly as a list re-sliced to cut off its spare capacity
 //@ pure func sameAlts(a parsley.Node, b parsley.Node) bool = same(a, b) || (a != nil && b != nil && typeis[ast.NodeList](a) && typeis[ast.NodeList](b) && parsley.ListArr(a) == parsley.ListArr(b) && parsley.NAlts(a) == parsley.NAlts(b) && parsley.ListSpare(a) == 0)
@@ -98,7 +98,7 @@ package combinator
 //@   let st = ctx.ResultCache()[parserIndex][pos]
 //@   let hit = ctx.ResultCache()[parserIndex][pos] != nil && forall k int :: dom(data.MapOf(ctx.ResultCache()[parserIndex][pos].LeftRecCtx), k) ==> data.MapOf(ctx.ResultCache()[parserIndex][pos].LeftRecCtx)[k] <= data.MapOf(lrc)[k]
 //@   let curtail = data.MapOf(lrc)[parserIndex] > ctx.Reader().Remaining(pos) + 1
-//@   ensures  [hit;C03,C01] hit ==> ncalls() == 0 && same(n, st.Node) && same(cp, st.CurtailingParsers) && same(err, st.Error)
+//@   ensures  [hit;C03,C01,C06] hit ==> ncalls() == 0 && same(n, st.Node) && same(cp, st.CurtailingParsers) && same(err, st.Error)
 //@   ensures  [hit-silent;C03] hit ==> same(ctx.Error(), old(ctx.Error())) && ctx.ResultCache()[parserIndex][pos] == old(ctx.ResultCache()[parserIndex][pos])
 //@   ensures  [curtailed;C01,C02] !hit && curtail ==> ncalls() == 0 && n == nil && err == nil && forall x int :: data.Member(data.ElemsOf(cp), x) == (x == parserIndex)
 //@   ensures  [miss;C01,C03] !hit && !curtail ==> ncalls() == 1 && callarg[*parsley.Context](1, 1) == ctx && callarg[parsley.Pos](1, 3) == pos && sameAlts(n, callres[parsley.Node](1, 0)) && same(cp, callres[data.IntSet](1, 1)) && same(err, callres[parsley.Error](1, 2))
@@ -280,7 +280,7 @@ package combinator
 //@   logs combinator.(*sequence).Parse
 //@   ensures  [run;C01] ncalls() == 1 && same(n, callres[parsley.Node](1, 0)) && same(cp, callres[data.IntSet](1, 1))
 //@   ensures  [named;C06] callres[parsley.Error](1, 2) != nil && old(s.customErr) != nil && callres[parsley.Error](1, 2).Pos() == pos && parsley.IsNotFound(callres[parsley.Error](1, 2)) ==> err != nil && err.Pos() == pos && same(err.Cause(), old(s.customErr))
-//@   ensures  [kept;C06] !(callres[parsley.Error](1, 2) != nil && old(s.customErr) != nil && callres[parsley.Error](1, 2).Pos() == pos && parsley.IsNotFound(callres[parsley.Error](1, 2))) ==> same(err, callres[parsley.Error](1, 2))
+//@   ensures  [kept;C06,C10] !(callres[parsley.Error](1, 2) != nil && old(s.customErr) != nil && callres[parsley.Error](1, 2).Pos() == pos && parsley.IsNotFound(callres[parsley.Error](1, 2))) ==> same(err, callres[parsley.Error](1, 2))
 //@   ghost_entry parsley.GhostSeqMark = allocmark()
 //@   ghost_return parsley.GhostSeqMark = old(parsley.GhostSeqMark)
 //@   ghost_return when err != nil && err.Pos() > parsley.GhostMaxFail :: parsley.GhostMaxFail = err.Pos()
